@@ -83,9 +83,9 @@ try:
     _part("C16S", _s.SPECS["C16S"])
     # Vec/RawVec parts of C18 (reserve then push without moving, amortised growth) and C19 (capacity overflow):
     # the vec family's growth / bounds profiles with the capacity field compared against the RawVec model
-    _part("C18V", _v.SPECS["C13"], profiles=[("growth", 900, 45), ("general", 300, 45)], fields=["cap", "len", "res"],
+    _part("C18V", _v.SPECS["C13"], profiles=[("growth", 900, 45), ("general", 300, 45), ("copy", 300, 40)], fields=["cap", "len", "res"],
           quick_release=[], partial=[])
-    _part("C19V", _v.SPECS["C13"], profiles=[("bounds", 900, 45), ("growth", 300, 45)], fields=["res", "cap", "len"],
+    _part("C19V", _v.SPECS["C13"], profiles=[("bounds", 900, 45), ("growth", 300, 45), ("zst", 300, 40)], fields=["res", "cap", "len"],
           partial=[])
     _part("C18A", SPECS["C18"])
     _part("C19A", SPECS["C19"])
